@@ -32,9 +32,9 @@ P = {
          "values float32-representable; no list properties on the vertex element"),
  "C09": ("closed-surface / orientation / isosurface-distance oracle on marched meshes of analytic unions and random lattice fields placed across block boundaries",
          "Exploration: directed-edge pairing, positive signed volume and |f(v)-c| <= L*h on every vertex, with the harness sampling the same lattice to report which of the 256 cube configurations and how many block-crossing cells were exercised.",
-         "cases whose crossings fall within 2% of a lattice corner are skipped as degenerate (polyform's fixed 3-decimal weld), counted as inconclusive"),
+         "stated input-only skip rules, counted as inconclusive and never as held: a lattice sample within 1e-9 of the threshold that is not an exact tie on both sides (exact ties are judged on the canvas entry points), and surface features thinner than the weld granule (weld pinch)"),
  "C10": ("exactly-once event log, sequential-vs-parallel result equality, and the Go race detector over the same workloads",
-         "Exploration over schedules the Go runtime produces under seeded yields, pool sizes and GOMAXPROCS settings; every element count 0..70 x pool size is enumerated for the scans.",
+         "Exploration over schedules the Go runtime produces under seeded yields, pool sizes and GOMAXPROCS settings; every element count 0..70 x pool size is enumerated for the scans; nested parallel use and many-block canvases included; the same workloads run in -race builds.",
          "the race detector only sees accesses that execute; schedules not produced are not covered"),
  "C11": ("reference-model monitor: graph mirrored as plain data and evaluated from scratch on every read; execution counters and versions checked after every operation",
          "Exploration over random DAG shapes and histories of parameter updates, re-wiring and reads, each read followed by idle re-reads that must execute nothing.",
@@ -43,13 +43,13 @@ P = {
          "Exploration over edit histories through the same graph.Instance methods the HTTP handlers call.",
          "nodes in generated graphs are deterministic by construction; non-deterministic shipped producers are detected by triple evaluation and excluded"),
  "C13": ("linearizability checking (porcupine) of recorded client histories with unique values, plus the race detector",
-         "Exploration over many short concurrent histories with injected yields inside node processors; porcupine decides each history against a 3-register sequential model with derived artifacts.",
+         "Exploration over many short concurrent histories with injected yields inside node processors, driven both directly on graph.Instance and through the real edit server over loopback HTTP; porcupine decides each history against a sequential register model with derived artifacts; the same workloads run in -race builds.",
          "porcupine timeout => inconclusive; only the three entry points the property names"),
  "C14": ("exhaustive enumeration of cut positions on valid files of every format; CPU-time watchdog for termination",
-         "Fault enumeration: every byte cut for binary formats and headers, every token boundary for ASCII bodies, for ~60 (quick) generated valid files.",
+         "Fault enumeration: every byte cut for binary formats and headers, every token boundary for ASCII bodies, for the generated valid files of the tier (all loaders incl. the path-based ones, 8 STL header kinds), plus sampled cuts of large files with a state-based non-termination detector.",
          "cuts inside a numeric ASCII token are excluded by the property; corrupted (not truncated) files out of scope"),
  "C15": ("byte-space quantisation oracle for .splat, independent SPZ reference encoder/dequantiser, PLY splat export round trip",
-         "Exploration over random clouds and random packed byte patterns for SPZ v1/v2, SH 0-3, fractional bits 0-23.",
+         "Exploration over random clouds and random packed byte patterns for SPZ v1/v2, SH 0-3, every fractional-bit byte 0-255, sizes around decoder block thresholds, gapped f_rest sets, and histories with injected I/O faults.",
          "finite attributes; scale magnitudes inside float32 exp range"),
  "C16": ("brute-force reference for every query kind over generated element sets and trees of every depth",
          "Exploration: each octree/BVH query answer is compared with an exhaustive scan using the harness's own geometry.",
@@ -67,7 +67,7 @@ P = {
          "Exploration; predicates are exact so the oracle has no rounding of its own.",
          "general position: near-co-circular quadruples within 1e-9 relative are don't-care"),
 }
-design = {k: "DESIGN.md §3 " + k for k in P}
+design = {k: "DESIGN.md §3 " + k + " and §9 (as built)" for k in P}
 
 checks, na = [], []
 for pid in sorted(P):
